@@ -162,3 +162,24 @@ func OnceFunc(f func()) func() {
 	var o Once
 	return func() { o.Do(f) }
 }
+
+// WaitGroup: Wait spins through the scheduler instead of parking the thread;
+// the real WaitGroup underneath provides the happens-before edges.
+type WaitGroup struct {
+	wg sync.WaitGroup
+	n  int64
+}
+
+func (w *WaitGroup) Add(delta int) {
+	atomic.AddInt64(&w.n, int64(delta))
+	w.wg.Add(delta)
+	zzsimrt.Point()
+}
+func (w *WaitGroup) Done() { w.Add(-1) }
+func (w *WaitGroup) Wait() {
+	zzsimrt.Point()
+	for atomic.LoadInt64(&w.n) > 0 {
+		zzsimrt.Blocked()
+	}
+	w.wg.Wait()
+}
